@@ -125,7 +125,7 @@ def _run(algo, space, batches, history, args):
       count = [1, 2, 5][(batches + r) % 3] if batches < 3 else (3 if batches == 3 else 1)
       try:
         policy = factory(problem, algo, supporter, 'study')        # rebuilt per request
-        if hasattr(policy, '_seed') and policy._seed is None:
+        if hasattr(policy, '_seed') and policy._seed is None and 'GRID' not in algo:   # (a grid seed means: shuffle)
           policy._seed = 11 + r                                    # = constructing the policy with an explicit seed
         decision = policy.suggest(pythia.SuggestRequest(study_descriptor=supporter.study_descriptor(), count=count))
       except (ValueError, NotImplementedError, TypeError, KeyError, ImportError, AttributeError) as e:
